@@ -21,7 +21,6 @@ import pyc_dump as D
 import syntax_common as S
 
 ID = "C05"
-NOT_CLAIMED = "in progress"
 LEVEL = "proof"
 TRANSLATORS = ["syntax", "pycschema"]
 MODEL_TARGETS = ["theories/Syntax.vo"]
